@@ -135,6 +135,10 @@ class ConcE:
         return v
 
     def int(self, name, lo=None, hi=None):
+        if name.startswith('cut') and self.gen is not None and name not in self.inputs:
+            # cut positions: uniformly inside what has been generated so far (boundary-biased values are mostly out of range)
+            hi_ = max((len(v['items']) for v in self.inputs.values() if isinstance(v, dict) and 'items' in v), default=8) + 8
+            self.inputs[name] = self.gen.r.randrange(lo or 0, max((lo or 0) + 1, hi_))
         v = self._get(name, lambda: self.gen.int(name, lo, hi))
         if isinstance(v, bool) or not isinstance(v, int):
             raise Vacuous()
